@@ -84,7 +84,7 @@ def _deliveries(c):
 
 class C07(Prop):
     id = "C07"
-    coq_targets = ["theories/Properties/C07.vo"]
+    coq_targets = ["theories/Properties/C07.vo", "theories/LockOrderProofs.vo"]
     check_vo = "theories/Check/C07Check.vo"
     check_module = "Moc.Check.C07Check"
     case_imports = ["Moc.Match", "Moc.Router", "Moc.RouterSpec"]
@@ -94,7 +94,8 @@ class C07(Prop):
     sizes = {"quick": 750, "thorough": 8000}
     widen_factor = 2
     coqchk = True
-    gen_names = ("g_router_buflen_bad", "g_trysend_cases", "g_trysend_has_default", "g_sendifmatch_method",
+    gen_names = ("g_lock_nest", "g_lock_blocking_under_lock", "g_lock_callbacks",
+                 "g_router_buflen_bad", "g_trysend_cases", "g_trysend_has_default", "g_sendifmatch_method",
                  "g_sendifmatch_trysend", "g_recv_req_shape", "g_recv_event_shape", "g_recv_close_shape",
                  "g_serve_defers_unsuball", "g_serve_queue_cap_is_buflen", "g_subs_subscribe_calls",
                  "g_subs_unsubscribe_calls", "g_subs_unsuball_calls", "g_subs_publish_calls", "g_safemap_locks",
